@@ -71,6 +71,9 @@ def qrow(r):
 
 
 def build(ctx):
+    import harness.util as _U
+    _U.PRELUDE = 3      # every third object (by crc32 of its sequence) answers after a query history (util.prelude)
+    _U.DECORATE = 4     # every fourth sequence is handed to the constructor in another accepted spelling (util.decorate)
     rng = ctx.rng
     pats = list(gen_seq.patterns_upto(6))
     seqs = [gen_seq.spell(rng, p) for p in rng.sample(pats, ctx.pick(60, 300))]
